@@ -127,16 +127,18 @@ theorem runT_trigger (h : Nested) (m : Machine) (t : Trigger) :
   simp only [Expected.triggerSync, runT, trigger, EM.get_bind_apply]
   split
   · rfl
-  · rw [EM.get_bind_apply]
-    cases hs : c.cur.bind (lookupState m) with
-    | none => rfl
-    | some s =>
-      have hf := runFor_tryCands h m t (out m s) { state := some s } rfl rfl
-      simp only [hf, bind_assoc]
-      refine congrFun (bind_congr fun o => ?_) c
-      cases o with
-      | none => cases hal : m.allow <;> simp
-      | some r => simp
+  · split
+    · rfl
+    · rw [EM.get_bind_apply]
+      cases hs : c.cur.bind (lookupState m) with
+      | none => rfl
+      | some s =>
+        have hf := runFor_tryCands h m t (out m s) { state := some s } rfl rfl
+        simp only [hf, bind_assoc]
+        refine congrFun (bind_congr fun o => ?_) c
+        cases o with
+        | none => cases hal : m.allow <;> simp
+        | some r => simp
 
 theorem runBody_erase (act : Transn → EM (Option Res)) (ev : EventId) (tr : Transn) (b : List LStmt) (e : TEnv) :
     runBody act ev tr (b.map eraseL) e
